@@ -592,6 +592,12 @@ def write_evidence(ctx, queries, level, extra_cov=None, assumptions=None, violat
         "exhaustive": False,
         "explanation": note or "",
     }
+    fam = {}
+    for q in queries:
+        k = q.name.split(".")[0]
+        f = fam.setdefault(k, {"queries": 0, "discharged": 0, "solver_s": 0.0, "max_s": 0.0})
+        f["queries"] += 1; f["discharged"] += q.status == "discharged"; f["solver_s"] = round(f["solver_s"] + q.solver_s, 1); f["max_s"] = round(max(f["max_s"], q.solver_s), 1)
+    cov["families"] = fam
     if extra_cov:
         cov.update(extra_cov)
     ev = {
